@@ -12,7 +12,7 @@ Parts:
   streams    streams of j messages; each position takes a fault from the menu (E1: option 0 = undamaged; the
              deviation bound is the number of damaged messages, so every subset of positions up to the bound is
              damaged with every combination of faults):
-               stop signature: each of its 4 bytes overwritten;
+               stop signature: each of its 4 bytes overwritten (one bit flipped inside the text range; the high bit set), all four 0xFF / NUL / an invalid UTF-8 pair;
                undefined element 063254 / undefined sequence 363254 substituted at every descriptor position;
                declared length of section 1..4 decreased / increased by 1, 2, 3/4 and 100 (total length intact).
              x {full, metadata-only} x {continue_on_error, stop on error}.
@@ -247,6 +247,15 @@ def faults_for(b):
         c = bytearray(b)
         c[len(b) - 4 + i] ^= 0x08
         out.append(('stop%d' % i, 'stop', bytes(c)))
+    # the same with bytes that are not text (high bit set: no valid UTF-8 / ASCII), and wholesale overwrites
+    for i in range(4):
+        c = bytearray(b)
+        c[len(b) - 4 + i] ^= 0x80
+        out.append(('stopH%d' % i, 'stop', bytes(c)))
+    for lab, fill in (('stopFF', b'\xff' * 4), ('stop00', b'\0' * 4), ('stopC3', b'77\xc3\x28')):
+        c = bytearray(b)
+        c[len(b) - 4:] = fill
+        out.append((lab, 'stop', bytes(c)))
     off3, n3 = pm.sections[3]
     for k in range(len(pm.descs)):
         for lab, code in (('elem', U_ELEM), ('seq', U_SEQ)):
@@ -337,7 +346,7 @@ def judge_scan(items, got, exc, info_only, cont):
 
 def core_fault(label):
     """the reduced menu used where two or more messages are damaged at once"""
-    return label in ('stop0', 'stop3', 'undef-elem@0') or label.startswith('undef-seq@') and label.endswith('@0') \
+    return label in ('stop0', 'stop3', 'stopH2', 'undef-elem@0') or label.startswith('undef-seq@') and label.endswith('@0') \
         or (label.startswith('len') and label[-2:] in ('-1', '+1'))
 
 
